@@ -11,6 +11,11 @@ Exploration: configuration space.  Three kinds of states
          ``odl.ResizingOperator``; inside: every pad mode (+ a non-zero constant), geometry of
          the range, full matrices of the operator, its ``adjoint`` (weighted identity),
          ``inverse``, ``derivative``.
+``xr``   one (domain shape, range shape, magnitude of the cell size) of ``ResizingOperator`` with
+         an explicitly given ``range=``; inside: every consistent offset x every axis (growing,
+         shrinking, unchanged) x every deviation of the range partition in that axis (cell size
+         x2, /2, x(1 +- 2**-10); shift by 1/2, 1/4, -1/4 cell; whole cells in unchanged axes):
+         clean refusal, or an operator that is judged by the property.
 ``rej``  documented rejections of ``ResizingOperator`` / ``resize_array`` arguments.
 
 Oracles: the index-based reference model ``mc.ref.resize`` (formulas of
@@ -1488,7 +1493,7 @@ def _xr_cfgs(tier):
             for newshp in itertools.product(newsizes, repeat=ndim):
                 pairs.append((sum(shape) + sum(newshp), shape, newshp))
         pairs.sort()
-        for scale in ('unit', 'tiny', 'huge'):
+        for scale in (('unit', 'tiny', 'huge') if th or ndim < 3 else ('unit',)):
             for _, shape, newshp in pairs:
                 cfgs.append({'kind': 'xr', 'shape': list(shape), 'newshp': list(newshp),
                              'scale': scale})
@@ -1786,6 +1791,18 @@ def meta(tier):
             'exact-integer inputs': 'generic, 0, e_k, V-shaped ramp (base 2**60 for 64-bit), '
                                     'large flat (100 int8, 200 uint8, 2**63 uint64, 6e4 float16, '
                                     '2**24/1 float32)',
+            'explicit range= (kind op)': 'hand-built range with the uniform_discr defaults, with '
+                                         'its own nodes_on_bdry (T/L 1-d, T/LR 2-d; thorough: + R, '
+                                         'RL and complex / nodes_on_bdry domains), with dtype '
+                                         'float32 for a float64 domain, and for a domain with a '
+                                         'non-uniform untouched axis (range carries the same '
+                                         'non-uniform partition)',
+            'deviating range= (kind xr)': ('1-d 1..6 -> 1..10, 2-d {1,2,3}^2 -> {1..5}^2, 3-d '
+                                           '{1,2}^3 -> {1,2,3}^3' if th else
+                                           '1-d 1..4 -> 1..7, 2-d {2,3}^2 -> {1..4}^2, 3-d {2}^3 -> '
+                                           '{1,2,3}^3 (3-d: unit cells only)')
+            + '; cell sizes x {1, 2**-30, 2**30}; every consistent offset x every axis x '
+              + '%d deviations' % (len(XR_DEVS) - 1),
             'argument history': '%d operators x 6 overwritten constructor arguments'
                                 % len(_hist_cfgs(tier)),
             'input layout': ['C', 'F', 'strided view', 'negative strides', 'nested list'],
@@ -1817,6 +1834,16 @@ def meta(tier):
             'it passed to the constructor (pad_const 0-d of the range dtype / another dtype / a '
             'view, ran_shp, offset, and the domain\'s min_pt, max_pt, shape), every observation '
             'C16 makes of the operator built before must be unchanged',
+            'kind xr: range= "requires that the partitions match, i.e. that the cell sizes are '
+            'the same and there is no shift". A range that deviates in ONE axis (cell size by a '
+            'factor 2, 1/2, 1 +- 2**-10 -- factors closer to 1 are not enumerated; shift by 1/2, '
+            '1/4, -1/4 cell) must be refused with ValueError or, if an operator is returned, that '
+            'operator is judged by the property (range has the domain\'s cell sides and lies on '
+            'the domain\'s grid in every axis, also the unchanged ones); a shift by WHOLE cells in '
+            'an unchanged axis is counted under unspecified_skipped when accepted (in a resized '
+            'axis whole cells are the offset); ranges that are non-uniform where the domain is '
+            'uniform are not enumerated. The consistent range must be accepted in every magnitude '
+            'regime, with the right offset, forward values and adjoint identity',
             'a non-integer pad_const for integer data and a non-zero pad_const in the adjoint '
             'direction are unspecified (counted under unspecified_skipped, any clean outcome '
             'accepted)',
